@@ -9,7 +9,7 @@ HERE = os.path.dirname(os.path.abspath(__file__))
 CLAIMED = {
     "C16": ("§3 C16",
             "CFG must-pass/ordering automata (go/cfg + go/types) over the fetch protocol, who-may-call and effect-site ownership tables",
-            "Decides the ordering of file-system effects of the cache protocol on every control-flow path of Fetch, downloadDir, downloadZip(1), fetchModFileData, downloadModFile1, writeDiskCache and lockVersion (lock held, post-lock re-check, .partial marker brackets Unzip, temp+close+rename, single flight, artefact ownership). Every crash point lies between two effects whose order is fixed by these rules; it does not execute a crash.",
+            "Decides the ordering of file-system effects of the cache protocol on every control-flow path of Fetch, downloadDir, downloadZip(1), fetchModFileData, downloadModFile1, writeDiskCache and lockVersion (lock held, post-lock re-check, .partial marker brackets Unzip, temp+close+rename, single flight, artefact ownership, a partial directory left by a crashed fetch is removed before re-extraction unless the post-lock verdict proves there is none). Every crash point lies between two effects whose order is fixed by these rules; it does not execute a crash.",
             "lockedfile, os.Rename atomicity and modzip.Unzip are trusted; only package mod/modcache is analysed"),
 }
 
@@ -19,13 +19,13 @@ CLAIMED["C15"] = ("§3 C15",
     "archive/zip, io.LimitedReader and O_EXCL semantics trusted; which characters fileNameOK admits and Unicode case folding are value-level and not decided")
 
 CLAIMED["C14"] = ("§3 C14",
-    "lockset (must-hold) analysis + capture analysis of concurrently executed closures, CFG must-pass, channel-token pairing, guard atoms on Graph.Require, sorted-after-map-range",
-    "Decides the schedule/order-independence mechanisms: shared state of the parallel walks (mvs.buildList, modrequirements.readModGraph) is only touched under one mutex; every requirement handed to g.Require is enqueued on every path; par.Work/Cache/Queue internal discipline (guarded fields, publish-before-done, single flight, token pairing); Graph.Require is a max-merge and Graph.BuildList sorts what it takes from a map. It does not decide minimality/sufficiency of versions or SemVer precedence.",
-    "sync/atomic semantics trusted; only internal/mod/mvs, internal/mod/modrequirements (readModGraph) and internal/par are analysed")
+    "lockset (must-hold) analysis + capture analysis of concurrently executed closures, CFG must-pass, channel-token pairing, guard atoms on Graph.Require, sorted-after-map-range; decision tables of the version comparators by finite case analysis over the CFG (three-valued evaluation of the comparators' own tests, canonical operand names), sibling agreement of the in-loop and trailing identifier checks",
+    "Decides the schedule/order-independence mechanisms: shared state of the parallel walks (mvs.buildList, modrequirements.readModGraph) is only touched under one mutex; every requirement handed to g.Require is enqueued on every path; par.Work/Cache/Queue internal discipline (guarded fields, publish-before-done, single flight, token pairing); Graph.Require is a max-merge and Graph.BuildList sorts what it takes from a map. For the ordering clause it decides the branch structure of every comparator on the input classes its own tests define: cmpVersion and Versions.Max put the main module's empty version above everything (symmetrically) and \"none\" below, semver.Compare orders invalid below valid and consults major, minor, patch (length, then digits) and then the pre-release and never the build metadata, comparePrerelease implements release > pre-release, numeric < alphanumeric, numeric by value, shorter list lower; parsePrerelease/parseBuild apply the same validity tests to the last identifier as to the others. It does not decide minimality/sufficiency of the selected versions, nor the character loops (parseInt, nextIdent, isNum).",
+    "sync/atomic and cmp.Compare semantics trusted; only internal/mod/mvs, internal/mod/modrequirements (readModGraph, cmpVersion), internal/mod/semver, mod/module (Versions) and internal/par are analysed")
 
 CLAIMED["C18"] = ("§3 C18",
     "typestate extraction (state-tracking automaton over go/cfg incl. tagged-switch edges), guard gates, constant folding of done() over the State enum, must-pass ordering, field-write confinement",
-    "Decides the controller's typestate relation (all Task.state assignments with their source-state guards lie within Waiting->Ready->Running->Terminated / Waiting->Terminated; received tasks are Running), that Ready requires isReady() which requires done() of every dependency and done() holds exactly for Terminated, that results are folded and the configuration recomputed before markReady and a failure returns without releasing dependants, that the task goroutine starts after updateTaskValue, writes only Task.err and always ends with the send on taskCh, and that checkCycle guards every initTasks path. It does not decide dependency discovery or equality of the final configuration.",
+    "Decides the controller's typestate relation (all Task.state assignments with their source-state guards lie within Waiting->Ready->Running->Terminated / Waiting->Terminated; received tasks are Running), that Ready requires isReady() which requires done() of every dependency and done() holds exactly for Terminated, that results are folded and the configuration recomputed before markReady and a failure returns without releasing dependants, that the task goroutine starts after updateTaskValue, writes only Task.err and always ends with the send on taskCh, that the loop's `running` flag (which decides whether it blocks on taskCh) is set exactly for tasks already Running or whose goroutine is started in the same iteration, that Task.Fill extends rather than overwrites a pending result and the pending result is cleared only after it was taken, and that checkCycle guards every initTasks path. It does not decide dependency discovery or equality of the final configuration.",
     "dep.Visit and Runner implementations are not analysed; only package tools/flow")
 
 CLAIMED["C08"] = ("§3 C08",
@@ -89,9 +89,9 @@ CLAIMED["C01"] = ("§3 C01",
     "order independence of the computed values is value-level and not claimed")
 
 CLAIMED["C03"] = ("§0.6 / §4 C03",
-    "per-case path analysis of the bound/validator insertion cases (must record or simplify on every path), consult-at-the-end checks over validateValue/unify/getValidators, clone completeness",
-    "Narrow: decides one mechanism the property names — bounds and validators are never dropped between insertion and the final validation: every path through the BoundValue and Validator cases of insertValueConjunct records the constraint (or leaves through the documented implied/finalised edges), the final validation consults both bounds and every pending check, getValidators carries them into non-concrete results, and disjunct clones copy them. It does NOT decide the cell values of SimplifyBounds (off-by-one, Ceil/Floor, kinds), which is the value-level core of the property.",
-    "the bound-simplification decision table is value-level and not decided")
+    "per-case path analysis of the bound/validator insertion cases (must record or simplify on every path), consult-at-the-end checks over validateValue/unify/getValidators, clone completeness; decision table of SimplifyBounds/opInfo by finite case analysis over the CFG (three-valued evaluation of the function's own tests on each class of bound pairs, canonical operand names)",
+    "Decides (1) that bounds and validators are never dropped between insertion and the final validation: every path through the BoundValue and Validator cases of insertValueConjunct records the constraint (or leaves through the documented implied/finalised edges), the final validation consults both bounds and every pending check, getValidators carries them into non-concrete results, and disjunct clones copy them; (2) the cell table of SimplifyBounds: on every class of bound pairs the function distinguishes (operator pair, sign of hi-lo, hi-lo in {0,1,2}, integer/float, string/bytes order, == and != against a bound) the reachable results are exactly error-for-empty / the implying bound / keep-both as the property prescribes, opInfo's comparison and direction table, and inward/outward rounding of fractional integer limits. It does NOT decide the arithmetic the table is keyed on (apd Sub/Ceil/Floor/Int64, BinOpBool's comparisons) nor unification of basic types and kinds outside SimplifyBounds.",
+    "apd and BinOpBool results are the table's inputs and are trusted")
 
 CLAIMED["C05"] = ("§0.6 / §4 C05",
     "CFG gates on the final closedness verdict (checkTypos) and on the required-field check (validator.validate)",
